@@ -31,14 +31,15 @@ auto make()
         rules(
             item(num) >= [](const term_value<MO>& t) { return std::make_unique<int>(t.get_value().v); },
             list(item) >= [](std::unique_ptr<int>&& p) { return MO(*p); },
-            list(list, ',', item) >= [](MO&& l, skip, std::unique_ptr<int>&& p) { return MO(l.v + *p); }
+            list(list, ',', item) >>= [](auto&& /*context*/, MO&& l, skip, std::unique_ptr<int>&& p) { return MO(l.v + *p); }
         ));
 }
 
 int main()
 {
     auto p = make();
-    auto r = p.parse(string_buffer("1,1,1"));
+    int ctx = 0;
+    auto r = p.context_parse(ctx, string_buffer("1,1,1"));
     if (!r.has_value() || r.value().v != 3) { printf("wrong result\n"); return 1; }
     auto r2 = p.parse(string_buffer("1,,1"));
     if (r2.has_value()) { printf("accepted a wrong input\n"); return 1; }
